@@ -180,7 +180,8 @@ def race_confirm(pid):
     ov = os.path.join(wd, "overlay.json")
     json.dump({"Replace": {os.path.join(REPO, "zz_vx_race_test.go"): tst}}, open(ov, "w"))
     try:
-        r = subprocess.run(["go", "test", "-race", "-vet=off", "-count=1", "-overlay", ov, "-run", "^TestVxAgentRace$", "-timeout", "300s", "."], cwd=REPO, env=ENV,
+        which = "^TestVxAgentRace$" if pid in ("C13", "C14") else "^TestVxClientRace$"
+        r = subprocess.run(["go", "test", "-race", "-vet=off", "-count=1", "-overlay", ov, "-run", which, "-timeout", "300s", "."], cwd=REPO, env=ENV,
                            stdout=subprocess.PIPE, stderr=subprocess.STDOUT, text=True, timeout=600)
         out = r.stdout
     except subprocess.TimeoutExpired:
